@@ -139,6 +139,15 @@ class Gen:
             elif d == 'impl':
                 self.do_impl(parts[1], ' '.join(parts[2:]))
                 i += 1
+            elif d == 'mirror':
+                import mirrorgen
+                if not hasattr(self, '_mirror'):
+                    try:
+                        self._mirror = mirrorgen.generate_parts(self.repo)
+                    except Exception as e:
+                        raise LostAnchor('mirror generation failed: %r' % (e,))
+                self.emit(self._mirror[parts[1]], 'spec', 'tools/mirrorgen.py:' + parts[1], 1, False)
+                i += 1
             elif d == 'endimpl':
                 self.emit('}', 'spec', 'specs/' + spec_rel, i + 1)
                 i += 1
@@ -188,6 +197,16 @@ class Gen:
             text = pubify_struct(text)
         if kw in ('struct', 'enum', 'trait', 'type', 'const'):
             text = 'pub ' + text
+        # R2: #[derive(..)] is reduced to the traits Verus can derive; everything else is dropped
+        keep = []
+        for a in it.attrs:
+            m = re.match(r'#\[derive\((.*)\)\]$', a, re.S)
+            if m:
+                keep += [d.strip() for d in m.group(1).split(',') if d.strip() in ('Clone', 'Copy', 'PartialEq', 'Eq', 'Hash')]
+        if 'noderive' in opts:
+            keep = []
+        if keep and kw in ('struct', 'enum') and not any(a.startswith('attr=') for a in opts):
+            self.emit('#[derive(%s)]' % ', '.join(keep), 'spec', rel, it.line, False)
         for a in opts:
             if a.startswith('attr='):
                 self.emit(a[5:], 'spec', rel, it.line, False)
@@ -437,7 +456,11 @@ class Gen:
         oblig = kw['as']
         header, loops, proofs = self.parse_block(block)
         self.begin_block(oblig, 'arm', rel, src, arm.pat_tok, arm.body_hi, selector + ' arm ' + kw['pat'])
-        header = header.replace('$PAT', arm.pat).replace('$GUARD', arm.guard or 'true')
+        bm = re.match(r'^[\w:]+\s*\(\s*(?:ref\s+)?(\w+)\s*\)$', arm.pat.strip())
+        bind = bm.group(1) if bm else '_nobind'
+        if bind == '_':
+            bind = '_unused'
+        header = header.replace('$PAT', arm.pat).replace('$GUARD', arm.guard or 'true').replace('$BIND', bind)
         c_lo = len(self.out)
         self.emit(header, 'spec', specfile, specline + 1)
         c_hi = len(self.out)
